@@ -137,10 +137,12 @@ def run(ctx):
                 "application data relation holds.")
     ctx.assumptions = []
     import session_corr
-    ctx.prove(["TLX.Props.C13", "TLX.Props.C13Session"])
-    ctx.require_theorems(THEOREMS + session_corr.THEOREMS_C13)
+    ctx.prove(["TLX.Props.C13", "TLX.Props.C13Session", "TLX.Props.C02Out"])
+    ctx.require_theorems(THEOREMS + session_corr.THEOREMS_C13 + ["TLX.Props.C02Out." + t for t in ("meta_only_adds_quic", "meta_only_adds_quic_sublist", "meta_regroup", "out_bytes_from_frames")])
     import c06_model
     c06_model.run_model(ctx)          # ties TLX.TcpOut to the real OutputBuilder
+    import q1_udpout
+    q1_udpout.correspond(ctx)         # ties TLX.Quic.UdpOut to the real QUICOutputbuilder
     session_corr.correspond(ctx)      # ties TLX.Session to the real Session (exp_meta on and off)
     explore(ctx)
     return ctx.finish(search=lambda c: explore(c, scale=2))
